@@ -2,7 +2,6 @@
 package checks
 
 import (
-	"strings"
 	"bytes"
 	"encoding/json"
 	"fmt"
@@ -11,6 +10,7 @@ import (
 	"image"
 	"image/color"
 	"runtime"
+	"strings"
 	"time"
 
 	webp "github.com/deepteams/webp"
